@@ -4,6 +4,7 @@ Keeps patch.diff + NOTES.md + meta.json under /verif/refactors/<name>/."""
 import glob, json, os, shutil, subprocess, sys, time
 VERIF = os.path.dirname(os.path.dirname(os.path.abspath(__file__)))
 WT = "/tmp/seedverify/wt"
+BASES = {}
 ALL = ["C01", "C04", "C05", "C06", "C08", "C13", "C17", "C18", "C19"]
 
 
@@ -26,6 +27,7 @@ def main():
     if not os.path.isdir(WT):
         sh(["git", "-C", "/repo", "worktree", "add", "--detach", WT, "HEAD"])
     sh(["git", "-C", WT, "checkout", "--", "."])
+    sh(["git", "-C", WT, "checkout", "--detach", BASES.get(name) or sh(["git", "-C", "/repo", "rev-parse", "HEAD"]).stdout.decode().strip()])
     p = sh(["git", "-C", WT, "apply", patch])
     if p.returncode:
         print("patch does not apply:", p.stdout.decode())
@@ -37,14 +39,25 @@ def main():
     if sh(["git", "-C", "/repo", "status", "--porcelain", "--untracked-files=no"]).stdout.decode().strip():
         print("/repo not clean")
         return 2
+    envc = dict(os.environ)
+    in_repo = True
     if sh(["git", "-C", "/repo", "apply", patch]).returncode:
-        print("patch does not apply to /repo")
-        return 2
+        base = BASES.get(name)
+        if not base:
+            print("patch does not apply to /repo")
+            return 2
+        in_repo = False
+        sh(["git", "-C", WT, "checkout", "--", "."])
+        sh(["git", "-C", WT, "checkout", "--detach", base])
+        if sh(["git", "-C", WT, "apply", patch]).returncode:
+            print("patch does not apply to its base either")
+            return 2
+        envc.update(FSIM_REPO=WT, FSIM_CACHE="/tmp/seedverify/cache")
     results = {}
     try:
         for c in checks:
             t0 = time.time()
-            cp = sh([os.path.join(VERIF, "check"), c], cwd=VERIF)
+            cp = sh([os.path.join(VERIF, "check"), c], cwd=VERIF, env=envc)
             out = cp.stdout.decode("utf-8", "replace")
             sigs = sorted({l.split("signature=")[1].split(" ")[0] for l in out.splitlines() if "signature=" in l and "KNOWN" not in l})
             results[c] = {"exit": cp.returncode, "signatures": sigs, "wall_s": round(time.time() - t0, 1)}
@@ -55,7 +68,10 @@ def main():
                 for f in glob.glob(os.path.join(VERIF, "replays", "%s-*.json" % c))[:2]:
                     shutil.copy(f, dst)
     finally:
-        sh(["git", "-C", "/repo", "checkout", "--", "."])
+        if in_repo:
+            sh(["git", "-C", "/repo", "checkout", "--", "."])
+        else:
+            sh(["git", "-C", WT, "checkout", "--", "."])
         sh(["git", "-C", VERIF, "checkout", "--", "evidence"])
         for f in glob.glob(os.path.join(VERIF, "replays", "*.json")):
             os.remove(f)
